@@ -40,6 +40,14 @@ Theorem C12_discover_attributes_terminates : forall r, finishes (discover_attrib
 Proof. exact discover_attributes_terminates. Qed.
 Print Assumptions C12_discover_attributes_terminates.
 
+(* any fuel that suffices gives the result every larger fuel gives (the correspondence harness
+   evaluates the model with a fuel of a few thousand requests) *)
+Theorem C12_fuel_irrelevant : forall cond proc raise_other r f k n start acc,
+  fst (loop cond proc raise_other r f n start acc) <> OutOfFuel ->
+  loop cond proc raise_other r (f + k) n start acc = loop cond proc raise_other r f n start acc.
+Proof. exact loop_fuel_mono. Qed.
+Print Assumptions C12_fuel_irrelevant.
+
 (* why D12a and D12c were needed: the loops as they were run out of ANY fuel on one peer *)
 Theorem C12_discover_attributes_unfixed_refuted :
   forall fuel, fst (attributes_unfixed (S (S fuel)) peer_empty_info 0 1 []) = OutOfFuel.
